@@ -44,19 +44,27 @@ class C14(Prop):
     def generate(self, rng, tier, n):
         if self.phases:
             self.phases.mark("scripted cases + shards")
+        # input still queued at the moment the timer fires: a fixed small scope first, then a share of the
+        # generated cases (PENDING_P of those that have an input stream and expire while running)
+        yield from pending_small_cases()
         if tier == "quick":
             # a slice of the exhaustive small scope (all of it: thorough tier) + generated cases; the ones
             # that cost real seconds (1 s per expiring join) are capped
-            yield from cases.quick_cases(rng, n, focus="timeout")
+            for c in cases.quick_cases(rng, n, focus="timeout"):
+                yield with_pending_input(c, rng)
             return
         for _ in range(n):
-            yield cases.gen_case(rng, focus="timeout")
+            yield with_pending_input(cases.gen_case(rng, focus="timeout"), rng)
 
     def enumerate_small(self, tier):
-        return cases.small_cases(tier)
+        yield from pending_small_cases()
+        yield from cases.small_cases(tier)
 
     def run_impl(self, case):
-        return cases.run_impl(case)
+        # C14 only: input events directly after a timer event are queued when the timer fires, and kill() is
+        # the real Local.kill run against a stand-in child whose stdin pipe is the scripted sink
+        o = cases.run_impl(dict(case, pending_at_timer=True, real_kill=True))
+        return o
 
     def to_coq(self, case, obs):
         return cases.to_coq(case, obs)
@@ -65,8 +73,9 @@ class C14(Prop):
         return cases.effective_timeout(case) is not None and cases.first_of(case) != "none"
 
     def classify(self, case, obs):
-        return "%s %s %s" % ("timeout" if cases.effective_timeout(case) is not None else "no-timeout",
-                             cases.first_of(case), obs["outcome"] or "HANG")
+        return "%s %s%s %s" % ("timeout" if cases.effective_timeout(case) is not None else "no-timeout",
+                               cases.first_of(case), "+input-pending" if pending_units(case) else "",
+                               obs["outcome"] or "HANG")
 
     def finding_of(self, case, obs):
         if cases.effective_timeout(case) is None or case.get("start_error"):
@@ -91,13 +100,13 @@ class C14(Prop):
 
     def mutate(self, case, rng):
         for _ in range(40):
-            yield cases.gen_case(rng, focus="timeout")
+            yield with_pending_input(cases.gen_case(rng, focus="timeout"), rng)
 
     def extra_checks(self, tier, seed):
         if self.phases:
             self.phases.mark("extra checks")
         budget = rc.ExtraBudget(tier, 30.0)
-        res = [program_timeout_sources(tier), cli_source(tier), real_timeouts(tier, budget)]
+        res = [program_timeout_sources(tier), cli_source(tier), real_pending_stdin(tier), real_timeouts(tier, budget)]
         if self.phases:
             self.phases.mark("end")
             res.append(self.phases.entry())
@@ -205,6 +214,157 @@ def real_timeouts(tier, budget):
             "note": budget.note() + "real children through Local: sleep 20 with timeout 0.5 (killed, CommandTimedOut with the output "
                     "so far, within %s s), quick commands with timeout 30 (normal outcome, timer thread gone), and "
                     "the two timing defects" % ("5" if strict else "15 (loaded machine margin)")}
+
+
+PENDING_P = 0.6
+
+
+def pending_units(case):
+    """the input units queued when the (first) timer fires: the in events directly after it, if that
+    expiry happens while the command is running and an input stream exists"""
+    evs = case["events"]
+    if not case.get("in") or cases.first_of(case) != "expired" or cases.effective_timeout(case) is None:
+        return []
+    k = next(i for i, e in enumerate(evs) if e[0] == "timer")
+    out = []
+    for e in evs[k + 1:]:
+        if e[0] != "in":
+            break
+        out.append(e[1])
+    return out
+
+
+def with_pending_input(case, rng):
+    """with probability PENDING_P, a generated case that has an input stream which has not ended and whose
+    timer expires before the command exits gets 1-3 input units queued at the expiry"""
+    evs = case["events"]
+    if not case.get("in") or case.get("start_error") or cases.first_of(case) != "expired" \
+            or cases.effective_timeout(case) is None:
+        return case
+    k = next(i for i, e in enumerate(evs) if e[0] == "timer")
+    if any(e[0] == "in_eof" for e in evs[:k]):     # an ended stream has nothing pending (cf. F-C12d / F-C08h)
+        return case
+    if rng.random() >= PENDING_P:
+        return case
+    units = [["in", rng.choice(["a", "b", "\n"])] for _ in range(rng.randint(1, 3))]
+    return dict(case, events=evs[:k + 1] + units + evs[k + 1:])
+
+
+def pending_small_cases():
+    """timer expiry with 1 or 3 input units queued, before / between / after the readers' EOFs, with and
+    without a pty, warn, asynchronous, a configured instead of a keyword timeout, input before the expiry too,
+    and -- for contrast -- the same scripts with the command finishing first"""
+    for pty in (False, True):
+        eofs = [["out", []]] + ([] if pty else [["err", []]])
+        for units in ([["in", "a"]], [["in", "a"], ["in", "b"], ["in", "\n"]]):
+            for warn in (False, True):
+                for pos in range(len(eofs) + 1):
+                    evs = [["out", [65]]] + eofs[:pos] + [["timer"]] + units + eofs[pos:]
+                    yield {"events": evs, "pty": pty, "in": {"mode": "text"}, "warn": warn, "async": False,
+                           "start_error": None, "never_eof": [], "timeout": 5}
+            yield {"events": [["in", "x"], ["out", [65]], ["timer"]] + units + [["out", [66]]] + eofs, "pty": pty,
+                   "in": {"mode": "text"}, "warn": False, "async": True, "start_error": None, "never_eof": [],
+                   "config_timeout": 2}
+            # the command finishes first (input queued at its exit): left alone
+            yield {"events": [["out", [65]], ["exit", 3]] + units + eofs, "pty": pty, "in": {"mode": "text"},
+                   "warn": False, "async": False, "start_error": None, "never_eof": [], "timeout": 5}
+
+
+def real_pending_stdin(tier):
+    """The timer fires while the stdin-mirroring worker still has input to forward.  A non-terminal in_stream
+    (StringIO, file, pipe) is mirrored one character per input_sleep (10 ms), so N characters keep that worker
+    busy for at least N/100 s: with N = 100 and a timeout of 0.3 s there is input pending at the expiry however
+    the threads are scheduled (recorded: the stream position at the moment kill() runs).  Whatever kill() does
+    to reach the command, the outcome is the timed-out failure with the output so far -- not a worker error --
+    and a command that finishes first is left alone although input is still queued."""
+    import io
+    from invoke.runners import Local
+    strict = tier == "thorough"
+    fails, evals, inconclusive, lat = [], 0, 0, []
+    limit = 8.0 if strict else 15.0
+    n_in = 100
+
+    def scenario(cmd, n, **kw):
+        stream = io.StringIO("x" * n)
+        kills = []
+
+        class Rec(Local):
+            def kill(self):
+                kills.append(stream.tell())      # characters the worker has taken when the kill happens
+                super().kill()
+        return rc.run_real(cmd, hide=True, in_stream=stream, runner_cls=Rec, bound=25, **kw), kills
+
+    variants = [{}, {"warn": True}, {"asynchronous": True}, {"pty": True}]
+    if strict:
+        variants += [{"pty": True, "warn": True}, {"asynchronous": True, "join_delay": 0.8},
+                     {"asynchronous": True, "pty": True}, {"timeout": 0.05}]
+    for _ in range(3 if strict else 1):
+        for v in variants:
+            evals += 1
+            kw = dict({"timeout": 0.3}, **v)
+            cmd = "echo started; exec sleep 5"
+            r, kills = scenario(cmd, n_in, **kw)
+            case = dict({"cmd": cmd, "in_stream": "io.StringIO('x' * %d)" % n_in, "hide": True}, **kw)
+            tex = ("; worker errors: %s" % ", ".join(r["thread_excs"])) if r.get("thread_excs") else ""
+            if r["hang"]:
+                fails.append({"case": case, "what": "run() still blocked 25 s after a timeout of %s s with input "
+                                                    "pending (then: %s)" % (kw["timeout"], r["outcome"])})
+                continue
+            if r["outcome"] != "CommandTimedOut":
+                fails.append({"case": case, "what": "the timeout expired while %s of %d input characters were still "
+                                                    "to be forwarded: outcome %s after %.1fs instead of "
+                                                    "CommandTimedOut%s" % (
+                                                        (n_in - kills[0]) if kills else "?", n_in, r["outcome"],
+                                                        r["elapsed"], tex)})
+                continue
+            lat.append(r["elapsed"])
+            if len(kills) != 1:
+                fails.append({"case": case, "what": "kill() ran %d times" % len(kills)})
+            elif kills[0] >= n_in:
+                inconclusive += 1                 # nothing was pending after all: says nothing, not counted as a pass
+                evals -= 1
+            if "started" not in (r["stdout"] or ""):
+                fails.append({"case": case, "what": "timed-out failure does not carry the output so far: %r"
+                                                    % (r["stdout"],)})
+            if getattr(r["exc"], "timeout", None) != kw["timeout"]:
+                fails.append({"case": case, "what": "CommandTimedOut.timeout is %r" % (getattr(r["exc"], "timeout", None),)})
+            if r["elapsed"] > limit:
+                fails.append({"case": case, "what": "reported only after %.1fs" % r["elapsed"]})
+            if r["child_state"] is not None:
+                fails.append({"case": case, "what": "killed child not reaped (%s)" % r["child_state"]})
+            if r["alive_after"] or r["timer_alive"]:
+                fails.append({"case": case, "what": "left behind: workers %s, timer alive %s"
+                                                    % (r["alive_after"], r["timer_alive"])})
+    # the command finishes first while input is still queued: normal outcome, nothing killed, timer disarmed
+    timely = [("sleep 0.2; echo done", n_in, {}, "Result", "done\n", 0),
+              ("cat; echo done", 30, {}, "Result", "x" * 30 + "done\n", 0)]
+    if strict:
+        timely += [("sleep 0.2; echo done; exit 3", n_in, {}, "UnexpectedExit", "done\n", 3),
+                   ("sleep 0.2; echo done; exit 3", n_in, {"warn": True}, "Result", "done\n", 3),
+                   ("sleep 0.2; echo done", n_in, {"asynchronous": True}, "Result", "done\n", 0)]
+    for cmd, n, v, want, out, code in timely:
+        evals += 1
+        kw = dict({"timeout": 20}, **v)
+        r, kills = scenario(cmd, n, **kw)
+        case = dict({"cmd": cmd, "in_stream": "io.StringIO('x' * %d)" % n, "hide": True}, **kw)
+        if r["outcome"] != want or r["stdout"] != out or r["exited"] != code:
+            fails.append({"case": case, "what": "a command that finishes well before its timeout, input still queued: "
+                                                "outcome %s after %.1fs, stdout %r, exited %r (expected %s, %r, %r)"
+                                                % (r["outcome"], r["elapsed"], r["stdout"], r["exited"], want, out, code)})
+        elif kills or r["timer_alive"]:
+            fails.append({"case": case, "what": "kill() calls %r, timer alive afterwards %s" % (kills, r["timer_alive"])})
+        elif r["child_state"] is not None or r["alive_after"]:
+            fails.append({"case": case, "what": "left behind: child %s, workers %s" % (r["child_state"], r["alive_after"])})
+    return {"name": "real-timeout-pending-stdin", "evaluations": evals, "failures": fails,
+            "note": "real children through Local with in_stream=StringIO of %d characters (mirrored one per 10 ms): "
+                    "'exec sleep 5' under timeout 0.3 is killed while input is still pending -> CommandTimedOut with "
+                    "the output so far, one kill, child reaped, no worker error (plain, warn, asynchronous, pty%s); "
+                    "commands that finish first with input still queued -> normal outcome, no kill, timer gone.  "
+                    "Observed report times %s s (the stdin worker forwards ALL queued input, 10 ms per character, "
+                    "before it ends and run() joins it without a timeout: the report is delayed accordingly)%s"
+                    % (n_in, ", ... x3" if strict else "", ", ".join("%.1f" % x for x in lat),
+                       "; %d runs inconclusive (no input pending at expiry), not counted" % inconclusive
+                       if inconclusive else "")}
 
 
 class _PCase:
